@@ -20,6 +20,12 @@ import json,sys
 S,ID,K,W,WO,C=sys.argv[1:7]
 try: meta=json.load(open(S+'/meta.json'))
 except Exception: meta={}
+try:
+    old=json.load(open('/verif/seeded/%s_%s/meta.json'%(ID,K)))
+    for k in ('strengthened','first_check_result'):
+        if k in old: meta[k]=old[k]
+    if 'first_check_result' not in meta and 'check_result' in old: meta['first_check_result']=old['check_result']
+except Exception: pass
 meta.update({"property":ID,"confirmed":{"suite":open(S+'/_suite.txt').read().strip(),"demo_exit_with_change":int(W),"demo_exit_without_change":int(WO),
  "how":"tools/confirm_seed.sh: patch applied in a scratch git worktree of /repo, full pytest suite, demo.py with and without the change; then tools/try_patch.sh (./check against a scratch copy with the patch via PERSIM_REPO)"},
  "check_result":{"exit":int(C),"lines":[l.strip() for l in open(S+'/_check.txt') if 'VIOLATION' in l or 'KNOWN' in l][:5]}})
